@@ -178,6 +178,8 @@ def leg_csv_join(ns, res, spec):
             # a table without records (and without a header line) is an empty file
             ta = c13.csv_text(A, an, ',', 'quoted') if (A or an is not None) else ''
             tb = c13.csv_text(B, bn, ',', 'quoted') if (B or bn is not None) else ''
+            if ta.startswith('\ufeff') or tb.startswith('\ufeff'):
+                continue          # at the very start of a FILE those three bytes are a byte order mark, not cell content
             if n % 2 == 0:
                 ok = [p for p in ('#', '//', '%%', '>>') if not any(l.startswith(p) for l in (ta + tb).split('\n'))]
                 if ok:
